@@ -293,6 +293,41 @@ def broadcasting(ctx: Ctx, which: str) -> None:
                               {"shapes": {k: list(x.shape) for k, x in tens.items()}, "got_shape": list(got.shape), "got": got.flatten()[:6].tolist(), "expanded": want.flatten()[:6].tolist()})
 
 
+def python_strike_on_lattice(ctx: Ctx, grid: Grid, greeks=("price",)) -> None:
+    """The whole lattice once more with the strike given as a PYTHON NUMBER (one call per strike level), under the library's default
+    dtype float32: float64 inputs are priced with the number the caller wrote (1.1 is not a float32), so every relation
+    established for tensor strikes on the lattice holds for this spelling too."""
+    saved = torch.get_default_dtype()
+    torch.set_default_dtype(torch.float32)
+    try:
+        for p in ("european", "european_binary", "american_binary", "lookback"):
+            for call in ([True, False] if p in ("european", "european_binary") else [True]):
+                for g in greeks:
+                    full = grid.value(p, call, g)
+                    for k, K in enumerate(grid.ax["strike"]):
+                        sl = (slice(None), slice(None), slice(None), slice(k, k + 1))
+                        kw = {name: (x[sl] if isinstance(x, torch.Tensor) else x) for name, x in grid.kwargs().items()}
+                        kw["strike"] = float(K)
+                        try:
+                            with torch.enable_grad():
+                                part = call_sig(functional(p, g), call=call, **kw).detach()
+                        except Exception as e:
+                            ctx.violation(f"python-strike:{p}:{g}:raises", f"bs_{p}_{g} raised {type(e).__name__} for a Python-number strike", {"strike": K, "error": repr(e)[:200]})
+                            break
+                        ctx.count(n=1)
+                        want = full[sl]
+                        part = part.expand(want.shape)
+                        bad = ~(((part - want).abs() <= 1e-13 * (1 + want.abs())) | (part.isnan() & want.isnan()))
+                        if part.dtype != want.dtype or bool(bad.any()):
+                            j = tuple(int(x) for x in bad.nonzero()[0]) if bool(bad.any()) else (0, 0, 0, 0, 0)
+                            idx = j[:3] + (k,) + j[4:]
+                            ctx.violation(f"python-strike:{p}:{g}", f"bs_{p}_{g}: the strike as a Python number gives another value than the same strike as a float64 tensor "
+                                          "(float64 inputs, default dtype float32)", {"call": call, "at": grid.describe(idx), "python_number": part[j].item(), "tensor": want[j].item(), "dtype": str(part.dtype)})
+                            break
+    finally:
+        torch.set_default_dtype(saved)
+
+
 def batch_consistency(ctx: Ctx, grid: Grid, greeks=("price",)) -> None:
     """The value at a point does not depend on what else is in the batch: the whole lattice in one call, one call per spot level
     (every element of such a call has the same moneyness - all below the strike, or all above) and single points agree."""
